@@ -159,7 +159,12 @@ def _dumpstruct(
 
         if color:
             foreground, background = colors[ci % len(colors)]
-            palette.append((structure._sizes[field._name], background))
+            size = structure._sizes.get(field._name)
+            if size is None:
+                # Bit fields (and fields that occupy no bytes) have no recorded size of their own
+                # The first bit field of a storage unit stands in for the whole unit
+                size = field.type.size if field.bits and field.offset is not None else 0
+            palette.append((size, background))
         ci += 1
 
         value = getattr(structure, field._name)
